@@ -429,7 +429,7 @@ def _expr(name, spec, res):
             res["twins_run"] += 1
             KU, RU = unify(ctx, kr.A, Rf)
             kp, rp = split_parts(KU), split_parts(RU)
-            j = next((i for i, (_, p) in enumerate(kp) if p.t), None)
+            j = max((i for i, (_, p) in enumerate(kp) if p.t), key=lambda i: max(abs(float(c)) for c in kp[i][1].t.values()), default=None)
             if j is None:
                 res["twins_ok"] += 1
             else:
